@@ -166,3 +166,58 @@ func VK10cSizeLimits() {
 	_, ec := kv.Get("c")
 	vrt.Assert(ea == nil && ec == nil && eb == sorted.ErrNotFound, "over-limit batch entries are skipped, the others applied")
 }
+
+// K10e: a write concurrent with a Flush. Flush moves the buffered rows to the backing store and
+// must not change the logical map: whatever the interleaving (every lock acquisition and every
+// call into a lower store is a scheduling point), once both calls returned the written key has
+// the written value (or is gone, for a delete) and every other key is unchanged.
+func VK10eBufferConcurrent() {
+	buf, back := vStore(), vStore()
+	ref := &vRef{}
+	for i, k := range back.Keys {
+		ref.set(k, back.Vals[i])
+	}
+	for i, k := range buf.Keys {
+		ref.set(k, buf.Vals[i])
+	}
+	kv := New(buf, back, 1000)
+	k, v := vKey(), vVal()
+	del := vrt.Choice(2) == 1
+	vmodel.YieldAtBoundaries = true
+	vrt.PreemptAtLocks(true)
+	vrt.RaceDetect(true) // happens-before detector: the buffered store and the backing store are not goroutine-safe by themselves
+	vrt.Schedules(12)
+	done := make(chan bool, 2)
+	go func() {
+		vrt.Assert(kv.Flush() == nil, "Flush succeeds")
+		done <- true
+	}()
+	go func() {
+		if del {
+			vrt.Assert(kv.Delete(k) == nil, "Delete succeeds")
+		} else {
+			vrt.Assert(kv.Set(k, v) == nil, "Set succeeds")
+		}
+		done <- true
+	}()
+	<-done
+	<-done
+	vrt.PreemptAtLocks(false)
+	vrt.RaceDetect(false)
+	vmodel.YieldAtBoundaries = false
+	if del {
+		ref.del(k)
+	} else {
+		ref.set(k, v)
+	}
+	for _, key := range []string{"a", "b", "c"} {
+		got, err := kv.Get(key)
+		want, ok := ref.get(key)
+		if ok {
+			vrt.Assert(err == nil && got == want, "after a write concurrent with a Flush, Get returns the last value set")
+		} else {
+			vrt.Assert(err == sorted.ErrNotFound, "after a delete concurrent with a Flush, the key is not found")
+		}
+	}
+	vrt.Cover("done")
+}
